@@ -17,8 +17,8 @@
       signed input of every mutant; the encoding hypotheses of [signed_p2pkh_accepts] hold. *)
 From Coq Require Import String List NArith ZArith Bool.
 From Coq Require Import Strings.Byte.
-From GoBT Require Import lib.Bytes lib.Hex lib.Sha256 model.Tx spec.DigestSpec spec.CommitSpec model.SigHash
-  model.SigHashWire model.TxMutate model.ScriptNum model.Interp model.CheckSig corr.Corr.
+From GoBT Require Import lib.Bytes lib.Hex lib.Sha256 lib.Ripemd160 model.Tx spec.DigestSpec spec.CommitSpec model.SigHash
+  model.SigHashWire model.TxMutate model.ScriptNum model.Interp model.CheckSig proofs.P2PKHProofs corr.Corr.
 Import ListNotations.
 Local Open Scope N_scope. Local Open Scope bool_scope.
 
@@ -103,17 +103,51 @@ Fixpoint nodup_b (l : list output) : bool :=
   | x :: r => negb (existsb (out_eqb x) r) && nodup_b r
   end.
 
-(** the encoding hypotheses of [signed_p2pkh_accepts] on a signed input *)
+(** the computable hypotheses of [signed_p2pkh_accepts] on a signed input: the template (the locking script
+    the input records is  p2pkh_lock (hash160 pk)  plus nothing or the envelope around a push-only body within
+    the element limit; the unlocking script is push(sig ++ [ht]) push(pk)), the sizes, the three encoding
+    checks, and "legacy stripping removes nothing" *)
+Definition template_ok (c : ctx) (lock pk : bytes) : bool :=
+  bytes_eqb (firstn 25 lock) (p2pkh_lock (hash160 pk)) &&
+  match skipn 25 lock with
+  | [] => true
+  | a :: b :: r =>
+      match rev r with
+      | e :: rbody =>
+          let body := rev rbody in
+          (b2n a =? 0) && (b2n b =? 99) && (b2n e =? 104) &&
+          match parse_ops (length body) false body 1 with
+          | Some bops => is_push_only bops && forallb (fun p => (lenZ (p_data p) <=? max_elem c)%Z) bops
+          | None => false
+          end
+      | [] => false
+      end
+  | _ => false
+  end.
+
 Definition enc_ok (flags : N) (t : tx) (ht : N) (s : signed_in) : bool :=
   match nthN (tx_ins t) (si_idx s) with
   | None => false
   | Some inp =>
       let c := mkCtx (normalise_flags flags) true (Z.of_N (tx_lock t)) (Z.of_N (tx_version t)) (Z.of_N (in_seq inp)) false in
-      check_hash_type c ht && match check_sig_enc c (si_sig s) with EncOk => true | _ => false end &&
-      check_pubkey_enc c (si_pk s) && Nat.eqb (length (si_pk s)) 33 &&
-      (* the unlocking script is exactly push(sig ++ [ht]) push(pk) *)
-      bytes_eqb (in_unlock inp)
-        (n2b (lenN (si_sig s ++ [n2b ht])) :: (si_sig s ++ [n2b ht]) ++ n2b (lenN (si_pk s)) :: si_pk s)
+      let full := si_sig s ++ [n2b ht] in
+      match in_script inp with
+      | None => false
+      | Some lock =>
+          (ht <? 256) && Nat.eqb (length (si_pk s)) 33 && Nat.leb (length full) 75 &&
+          negb (Nat.eqb (length (si_sig s)) 0) &&
+          (negb (has_flag c F_CLEANSTACK) || has_flag c F_BIP16) &&
+          (lenZ lock <=? max_script_size c)%Z &&
+          template_ok c lock (si_pk s) &&
+          check_hash_type c ht && match check_sig_enc c (si_sig s) with EncOk => true | _ => false end &&
+          check_pubkey_enc c (si_pk s) &&
+          ((has_flag c F_FORKID && flag_has ht sh_forkid) ||
+           match parse_script false lock with
+           | Some l => Nat.eqb (length (remove_by_data l full)) (length l)
+           | None => false
+           end) &&
+          bytes_eqb (in_unlock inp) (p2pkh_unlock (si_sig s) ht (si_pk s))
+      end
   end.
 
 Definition check_mut (k : case) (orc : sig_oracle) (pre : sres) (mo : mut_obs) : bool :=
